@@ -9,7 +9,7 @@ import shutil
 import vlib
 from vlib import sh, BUILD, COQ
 
-HARNESS_TOOLS = ["purefh", "ledgerh"]
+HARNESS_TOOLS = ["purefh", "ledgerh", "gossiph"]
 
 
 def _tool(name, **kw):
@@ -255,6 +255,78 @@ def make_ledger_check(prop, stat_prefixes):
     return {"run": run, "replay": replay}
 
 
+# ------------------------------------------------------------------ gossip properties (shared virtual-network run)
+def gossip_run(ctx, tier):
+    key = "%s-%s-%s-%d" % (vlib.repo_fingerprint(), _dir_hash([os.path.join(vlib.HARNESS, "cmd", "gossiph"),
+                           os.path.join(COQ, "Model", "Gossip.v"), os.path.join(COQ, "Run", "CheckGossip.v")]), tier, ctx.seed)
+    cdir = os.path.join(BUILD, "cache", "gossip", key)
+    os.makedirs(cdir, exist_ok=True)
+    import fcntl
+    with open(os.path.join(cdir, ".lock"), "w") as lk:
+        fcntl.flock(lk, fcntl.LOCK_EX)
+        res = os.path.join(cdir, "result.json")
+        if os.path.exists(res):
+            return json.load(open(res))
+        tool = _tool("gossiph")
+        with vlib.BuildLock():
+            rc, o, e = sh(["make", "-j16", "Run/CheckGossip.vo"], cwd=COQ, timeout=1500)
+        mism = []
+        if rc != 0:
+            mism.append("model does not compile: " + (o + e)[-800:])
+        summ, cases = os.path.join(cdir, "summary.json"), os.path.join(cdir, "gcases.v")
+        rc, out, err = sh([tool, "-tier", tier, "-seed", str(ctx.seed), "-summary", summ, "-out", cases], timeout=3000)
+        if rc != 0:
+            raise RuntimeError("gossiph failed rc=%s %s %s" % (rc, out[-1500:], err[-1500:]))
+        s = json.load(open(summ))
+        if not mism:
+            q = []
+            for x in ("Base", "Gen", "Model", "Run"):
+                q += ["-Q", os.path.join(COQ, x), "Verif"]
+            rc, o, e = sh(["coqc"] + q + [cases], cwd=cdir, timeout=2400)
+            m = re.search(r"bad\s*=\s*(\[.*?\])\s*:\s*list", o + e, re.S)
+            if rc != 0 or not m:
+                mism.append("coq evaluation failed: " + (o + e)[-800:])
+            elif m.group(1).strip() != "[]":
+                mism.append("model and implementation disagree on traces (trace, step): " + " ".join(m.group(1).split())[:800])
+        r = {"summary": s, "mismatches": mism}
+        json.dump(r, open(res, "w"))
+        root = os.path.dirname(cdir)
+        ents = sorted((os.path.getmtime(os.path.join(root, d)), d) for d in os.listdir(root))
+        for _, d in ents[:-6]:
+            shutil.rmtree(os.path.join(root, d), ignore_errors=True)
+        return r
+
+
+GOSSIP_RULE = ("virtual networks of 2-8 REAL gossiper objects (random connected topologies, every origin) over real ledgers, caches and flash memories; the harness delivers the "
+               "in-flight GossipVrx / GossipTrx messages in seeded random order, duplicates 1 in 5, appends forged gossiper entries (unsigned / signed for another item / signed by "
+               "another key) to 1 in 3, and in 'poison' scenarios lets a Byzantine relay hand a corrupted copy to its victim first; non-trivial = >= 3 nodes and >= 2 deliveries; distinct traces")
+
+
+def make_gossip_check(prop):
+    def run(ctx, tier):
+        r = gossip_run(ctx, tier)
+        s = r["summary"]
+        viol = [{"key": v["key"], "what": v["what"][:400]} for v in (s.get("violations") or []) if v["prop"] in (prop, "HARNESS")]
+        return {"evaluations": s["evaluations"], "distinct_nontrivial": s["distinct_nontrivial"], "rule": GOSSIP_RULE,
+                "samples": s.get("samples", [])[:2], "mismatches": r["mismatches"], "violations": viol,
+                "extra": {"branches_reached": s.get("kinds", {}),
+                          "comparison": "every delivery: admitted? and the set of forward destinations vs Gossip.handle; final admitted set and empty queue (CheckGossip.gmismatches, coqc vm_compute)"},
+                "assumptions": ["one item whose acceptance does not depend on delivery order (parents are everywhere); cross-item reordering is C13",
+                                "flash expiry (20 s window) is not exercised; duplicates arrive within the window"]}
+
+    def replay(ctx, path):
+        r = json.load(open(path))
+        print(json.dumps(r, indent=1)[:3000])
+        res = run(ctx, r.get("tier", "quick"))
+        want = (r.get("violation") or {}).get("key")
+        if (want and want in {v["key"] for v in res["violations"]}) or (not want and res["mismatches"]):
+            print("VIOLATION property=%s replay=%s" % (prop, path))
+            return 1
+        print("replay: not reproduced on the current tree")
+        return 0
+    return {"run": run, "replay": replay}
+
+
 PROPS = {
     "C05": {"run": run_C05, "replay": replay_C05},
     "C01": make_ledger_check("C01", ["c01.", "res.", "op."]),
@@ -266,6 +338,8 @@ PROPS = {
     "C07": make_ledger_check("C07", ["trunc.", "op.truncate", "op.create.quiet", "op.add.quiet"]),
     "C13": make_ledger_check("C13", ["perm.", "res.retry", "res.add.RParentMissing", "op.retry"]),
     "C14": make_ledger_check("C14", ["load.", "res.load", "op.load"]),
+    "C11": make_gossip_check("C11"),
+    "C12": make_gossip_check("C12"),
     "C20": make_pure_check("C20", "wallet",
         "real SaveWallet/ReadWallet (+PEM) over seeded wallets x {16,32}-byte keys: the round trip, EVERY truncation length 0..len-1, EVERY byte position x k xor-values, "
         "one extra byte, wrong keys of sizes {same, other valid, 0,1,15,17,24,31,33,64} and one flipped key bit; non-trivial = every non-round-trip case (each is a distinct file/key)",
